@@ -393,9 +393,9 @@ func c11Run(c lib.Case, env *lib.Env) lib.Result {
 
 func init() {
 	lib.Register(&lib.Property{
-		ID:    "C11",
-		Level: "exploration",
-		Rule: "every execution of the real CreateSignature+ComputeDiff is monitored: recorded operations are replayed by a reference replayer with explicit bounds checks and (every 4th exhaustive / every random case) by the real ApplySingle over an in-memory pool; structural predicates (range inside the named file, merged ranges, data op <= 4 MiB, empty data only leading). Exhaustive sub-spaces, each enumerated completely for block sizes 1..4 and every preferred index: E1 one old file alphabet 2 |old|<=7 |new|<=9; E2 one old alphabet 3 |old|<=5 |new|<=7; E3 two old alphabet 2 |old|<=4 |new|<=9; E4 three old alphabet 2 |old|<=3 |new|<=8 (thorough adds E5 two old a2 |old|<=6 |new|<=9, E6 one old a3 |old|<=7 |new|<=8, E7 two old a3 |old|<=3 |new|<=7). Random large part: block sizes {1,2,3,7,64,1000,4096,65536}, new content > 4 MiB (up to 8 MiB+) in shapes nomatch / phases / wrapmatch / lowentropy / tailprefix / exact4m / fresh-tail. distinct_nontrivial = exhaustive executions whose op list has both a block range and a data op (distinct tuples by construction) + distinct random feature signatures",
+		ID:          "C11",
+		Level:       "exploration",
+		Rule:        "every execution of the real CreateSignature+ComputeDiff is monitored: recorded operations are replayed by a reference replayer with explicit bounds checks and (every 4th exhaustive / every random case) by the real ApplySingle over an in-memory pool; structural predicates (range inside the named file, merged ranges, data op <= 4 MiB, empty data only leading). Exhaustive sub-spaces, each enumerated completely for block sizes 1..4 and every preferred index: E1 one old file alphabet 2 |old|<=7 |new|<=9; E2 one old alphabet 3 |old|<=5 |new|<=7; E3 two old alphabet 2 |old|<=4 |new|<=9; E4 three old alphabet 2 |old|<=3 |new|<=8 (thorough adds E5 two old a2 |old|<=6 |new|<=9, E6 one old a3 |old|<=7 |new|<=8, E7 two old a3 |old|<=3 |new|<=7). Random large part: block sizes {1,2,3,7,64,1000,4096,65536}, new content > 4 MiB (up to 8 MiB+) in shapes nomatch / phases / wrapmatch / lowentropy / tailprefix / exact4m / fresh-tail. distinct_nontrivial = exhaustive executions whose op list has both a block range and a data op (distinct tuples by construction) + distinct random feature signatures",
 		Assumptions: []string{"the property's full small-scope statement (three files of length <= 7 over 3 symbols) is > 10^16 cases and is NOT enumerated; exhaustive=true refers to the listed sub-spaces only"},
 		Cases:       c11Cases,
 		Run:         c11Run,
